@@ -164,6 +164,77 @@ Proof.
   - vm_compute. repeat split; reflexivity.
 Qed.
 
+(* ---- the k-th write failing, whatever it carries (timed writer loop, Model/SenderFault.v) ----
+   The connection-level system above runs with keepalives off; the timed writer loop of C13 (Model/Sender.v) is
+   extended with write faults: a run is a list of (label, ok), ok = false meaning that the sendall this label
+   causes raised OSError.  [present h] = 1 iff a handler is installed, [exits_of h] = 1 iff none is installed
+   or it returns True. *)
+From Coq Require Import QArith.
+From LS Require Import Model.Sender Model.SenderFault Proofs.SenderFaultProofs.
+
+(* on every run from the start: without a fault nothing is reported and the exit primitive is not reached; with one, the
+   handler (if any) is notified exactly once, the exit primitive is reached exactly once iff there is no handler or it
+   returns True, the writer thread has ended, and sendall was called once more than it completed *)
+Theorem c20_timed_fault_reported_once : forall h k ls f,
+  frun h (fault_init k) ls = Some f ->
+  match f_failed f with
+  | None => f_reports f = 0%nat /\ f_exits f = 0%nat /\ f_attempts f = length (ss_out (f_s f))
+  | Some _ => ss_alive (f_s f) = false /\ f_reports f = present h /\ f_exits f = exits_of h /\
+              f_attempts f = S (length (ss_out (f_s f)))
+  end.
+Proof. exact fault_reported_once. Qed.
+
+Theorem c20_exit_iff : forall h, exits_of h = 1%nat <-> (h = HAbsent \/ h = HReturns (Some true)).
+Proof. exact exit_iff_no_handler_or_true. Qed.
+
+(* the fault is reported alike whatever the line: a message, the answer to a pill, a timer KEEPALIVE *)
+Theorem c20_fault_hits_any_write : forall h f l s' kind p line,
+  f_failed f = None -> sstep (f_s f) l = Some s' -> written_by (f_s f) l = Some (kind, p, line) ->
+  exists f', fstep h f l false = Some f' /\
+             f_failed f' = Some (ss_now (f_s f), kind, line) /\
+             f_reports f' = (f_reports f + present h)%nat /\
+             f_exits f' = (f_exits f + exits_of h)%nat /\
+             ss_out (f_s f') = ss_out (f_s f) /\ ss_alive (f_s f') = false.
+Proof. exact fault_hits_any_write. Qed.
+
+Theorem c20_timer_keepalive_fault_reported : forall h f s',
+  f_failed f = None -> sstep (f_s f) SFire = Some s' ->
+  exists f', fstep h f SFire false = Some f' /\
+             f_failed f' = Some (ss_now (f_s f), WTimeout, keepalive_line) /\
+             f_reports f' = (f_reports f + present h)%nat /\ f_exits f' = (f_exits f + exits_of h)%nat.
+Proof. exact timer_keepalive_fault_reported. Qed.
+
+(* after the fault: nothing more is written or attempted, no second report, no second exit *)
+Theorem c20_nothing_after_fault : forall h ls f f',
+  f_failed f <> None -> ss_alive (f_s f) = false -> frun h f ls = Some f' ->
+  ss_out (f_s f') = ss_out (f_s f) /\ f_attempts f' = f_attempts f /\
+  f_reports f' = f_reports f /\ f_exits f' = f_exits f /\ f_failed f' = f_failed f /\ ss_alive (f_s f') = false.
+Proof. exact nothing_after_fault. Qed.
+
+(* what reached the socket before the fault is what the fault-free writer (C13) wrote on the same prefix *)
+Theorem c20_wire_before_fault : forall h k pre l post f,
+  all_ok pre = true -> frun h (fault_init k) (pre ++ (l, false) :: post) = Some f ->
+  exists s, srun (sender_init k) (labels_of pre) = Some s /\ ss_out (f_s f) = ss_out s /\
+            exists kind p line, written_by s l = Some (kind, p, line) /\ f_failed f = Some (ss_now s, kind, line).
+Proof. exact wire_before_fault. Qed.
+
+(* fault-free runs are exactly the runs of Model/Sender.v: every C13 theorem applies to them *)
+Theorem c20_fault_free_is_c13 : forall h ls f f',
+  all_ok ls = true -> frun h f ls = Some f' ->
+  srun (f_s f) (labels_of ls) = Some (f_s f') /\
+  f_failed f' = f_failed f /\ f_reports f' = f_reports f /\ f_exits f' = f_exits f.
+Proof. exact fault_free_refines. Qed.
+
+(* non-vacuity: the second write, a timer KEEPALIVE, fails with no handler installed *)
+Example c20_timed_fault_example :
+  let ls := [(SPut 1 (Some (bs "1|MPI|V")), true); (SDelay 1, true); (SFire, false); (SDelay 5, true); (SPut 2 (Some (bs "x")), true)] in
+  match frun HAbsent (fault_init 1) ls with
+  | Some f => f_attempts f = 2%nat /\ f_reports f = 0%nat /\ f_exits f = 1%nat /\ length (ss_out (f_s f)) = 1%nat /\
+              f_failed f = Some (1, WTimeout, keepalive_line)
+  | None => False
+  end.
+Proof. exact fault_example. Qed.
+
 Print Assumptions c20_close_honoured.
 Print Assumptions c20_close_ignored.
 Print Assumptions c20_close_bad_id.
@@ -182,3 +253,11 @@ Print Assumptions c20_handler_decides_writer.
 Print Assumptions c20_reclose.
 Print Assumptions c20_monitor_rejects.
 Print Assumptions c20_reachable_close.
+Print Assumptions c20_timed_fault_reported_once.
+Print Assumptions c20_exit_iff.
+Print Assumptions c20_fault_hits_any_write.
+Print Assumptions c20_timer_keepalive_fault_reported.
+Print Assumptions c20_nothing_after_fault.
+Print Assumptions c20_wire_before_fault.
+Print Assumptions c20_fault_free_is_c13.
+Print Assumptions c20_timed_fault_example.
